@@ -103,25 +103,10 @@ func startServer(dir string) (*ogServer, error) {
 	if err != nil {
 		return nil, fmt.Errorf("build ts-server: %v: %s", err, tail(string(out), 1500))
 	}
-	raw, err := os.ReadFile(filepath.Join(repo, "config", "openGemini.singlenode.conf"))
+	conf, httpPort, err := serverConfig(dir)
 	if err != nil {
 		return nil, err
 	}
-	conf := strings.ReplaceAll(string(raw), "\r\n", "\n")
-	ports, err := freePorts(8)
-	if err != nil {
-		return nil, err
-	}
-	for i, p := range []string{"8092", "8088", "8091", "8086", "8087", "8400", "8401", "8305"} {
-		if !strings.Contains(conf, "127.0.0.1:"+p) {
-			return nil, fmt.Errorf("config rewrite: port %s not found in the single-node config", p)
-		}
-		conf = strings.ReplaceAll(conf, "127.0.0.1:"+p, fmt.Sprintf("127.0.0.1:%d", ports[i]))
-	}
-	if !strings.Contains(conf, "/tmp/openGemini") {
-		return nil, fmt.Errorf("config rewrite: data path not found")
-	}
-	conf = strings.ReplaceAll(conf, "/tmp/openGemini", filepath.Join(dir, "og"))
 	cf := filepath.Join(dir, "server.conf")
 	if err := os.WriteFile(cf, []byte(conf), 0o644); err != nil {
 		return nil, err
@@ -141,7 +126,7 @@ if ! kill -0 $PPID 2>/dev/null; then rm -rf "$3"; fi
 	if err := cmd.Start(); err != nil {
 		return nil, err
 	}
-	s := &ogServer{base: fmt.Sprintf("http://127.0.0.1:%d", ports[3]), dir: dir, cmd: cmd,
+	s := &ogServer{base: fmt.Sprintf("http://127.0.0.1:%d", httpPort), dir: dir, cmd: cmd,
 		hc: &http.Client{Timeout: 60 * time.Second}}
 	s.sigc = make(chan os.Signal, 1)
 	signal.Notify(s.sigc, syscall.SIGINT, syscall.SIGTERM)
